@@ -309,6 +309,12 @@ func (c *EvalCtx) sel(n *Node, base Val, name string) Val {
 }
 
 func (c *EvalCtx) valEq(n *Node, a, b Val) *T {
+	// call_result of a call that did not happen on this path equals nothing.
+	for _, v := range []Val{a, b} {
+		if o, ok := v.(Opaque); ok && strings.HasPrefix(o.Tag, "no-call:") {
+			return tFalse
+		}
+	}
 	if _, ok := a.(NilV); ok {
 		a, b = b, a
 	}
@@ -628,7 +634,7 @@ func (c *EvalCtx) call(n *Node) Val {
 		k, _ := c.evalTerm(n.Kids[1]).intVal()
 		tu, ok := c.st.Ghost["callret:"+nm].(Tuple)
 		if !ok || int(k) >= len(tu) {
-			specErr(n, "no recorded call of %s", nm)
+			return Opaque{Tag: "no-call:" + nm}
 		}
 		return tu[k]
 	case "expected_tags":
@@ -853,6 +859,100 @@ func (c *EvalCtx) call(n *Node) Val {
 		var alts []*T
 		for k := 0; k < sl.Len_; k++ {
 			alts = append(alts, c.valEq(n, c.st.load(sl.Arr.sub(sl.Lo+k)), want))
+		}
+		return mkOr(alts...)
+	case "comment_only":
+		// comment_only(text): every line of the text is, after its indentation, a
+		// `//` comment, and no text of unknown content (which could hold a newline and
+		// so escape the comment) is spliced into it. Pieces of a line split
+		// (line0(..), line1(..)) and numbers are newline-free.
+		t, ok := arg(0).(Text)
+		if !ok {
+			specErr(n, "comment_only: text expected")
+		}
+		const (
+			lineStart = iota
+			oneSlash
+			inComment
+		)
+		state := lineStart
+		for _, f := range t.Frags {
+			switch f.Kind {
+			case FLit:
+				for _, r := range f.Lit {
+					switch state {
+					case lineStart:
+						switch r {
+						case '\t', ' ', '\n':
+						case '/':
+							state = oneSlash
+						default:
+							return tFalse
+						}
+					case oneSlash:
+						if r != '/' {
+							return tFalse
+						}
+						state = inComment
+					case inComment:
+						if r == '\n' {
+							state = lineStart
+						}
+					}
+				}
+			case FAtom:
+				if state != inComment || !(strings.HasPrefix(f.Atom, "line0(") || strings.HasPrefix(f.Atom, "line1(")) {
+					return tFalse
+				}
+			case FNum:
+				if state != inComment {
+					return tFalse
+				}
+			}
+		}
+		return mkBool(state == lineStart)
+	case "rtype_name":
+		// rtype_name(t): the type string of a modelled reflect.Type
+		iv, ok := arg(0).(Iface)
+		if ok {
+			if o, isO := iv.V.(Opaque); isO && strings.HasPrefix(o.Tag, "rtype:") {
+				return lit(strings.TrimPrefix(o.Tag, "rtype:"))
+			}
+		}
+		specErr(n, "rtype_name: reflect.Type expected")
+	case "struct_has_field":
+		// struct_has_field(type, "Name"): the codegen type is a struct type with a
+		// field of that Go name
+		iv, ok := arg(0).(Iface)
+		if !ok {
+			specErr(n, "struct_has_field: codegen.Type expected")
+		}
+		if iv.Dyn == nil || !strings.HasSuffix(types.TypeString(iv.Dyn, nil), "codegen.StructType") {
+			return tFalse
+		}
+		var sv Val = iv.V
+		if r, isR := sv.(Ref); isR {
+			sv = c.st.load(r)
+		}
+		sl, ok := c.sel(n, sv, "Fields").(SliceV)
+		if !ok {
+			specErr(n, "struct_has_field: Fields is not a concrete slice")
+		}
+		var alts []*T
+		for k := 0; k < sl.Len_; k++ {
+			alts = append(alts, c.valEq(n, c.sel(n, c.st.load(sl.Arr.sub(sl.Lo+k)), "Name"), arg(1)))
+		}
+		return mkOr(alts...)
+	case "imports_have":
+		// imports_have(imports, "path"): some element's QualifiedName is the path
+		sl, ok := arg(0).(SliceV)
+		if !ok {
+			specErr(n, "imports_have: slice expected")
+		}
+		want := arg(1)
+		var alts []*T
+		for k := 0; k < sl.Len_; k++ {
+			alts = append(alts, c.valEq(n, c.sel(n, c.st.load(sl.Arr.sub(sl.Lo+k)), "QualifiedName"), want))
 		}
 		return mkOr(alts...)
 	case "last":
